@@ -390,7 +390,7 @@ Section Run.
 End Run.
 
 (* ------------------------------------------------------------------ instances *)
-From DV Require Import Proofs.CacheRing Proofs.CacheDict Proofs.CacheLru Proofs.CacheSpec Proofs.CacheThm.
+From DV Require Import Model.CacheSpecM Proofs.CacheRing Proofs.CacheDict Proofs.CacheLru Proofs.CacheSpec Proofs.CacheThm.
 
 Lemma witness_mono : forall {St} (step : call -> St -> clk -> res (ret * St * clk)) cf ls cf',
   exec step cf ls cf' -> mono (witness ls).
